@@ -843,6 +843,14 @@ def _should_skip(selector, skip_unknown):
   _validate_skip_unknown(skip_unknown)
   if _REGISTRY.matching_selectors(selector):
     return False  # Never skip known configurables.
+  try:
+    # With dynamic registration, a configurable is also known if it can be
+    # resolved through the current file's imports (it may not be in the
+    # registry yet: registration happens on first use).
+    if _parse_context().get_configurable(selector):
+      return False
+  except (NameError, AttributeError):
+    pass
   if isinstance(skip_unknown, (list, tuple, set)):
     return selector in skip_unknown
   return skip_unknown  # Must be a bool by validation check.
